@@ -86,7 +86,8 @@ func runCheck(args []string) int {
 	}
 	c.ev.Extra = map[string]interface{}{}
 	c.Host = hostLevelOf(self)
-	for _, l := range []int{0, 1, 3, 4} {
+	// (the detector in internal/cpu also returns 2, for x86-64-v2 CPUs without AVX2: the code paths of level 1)
+	for _, l := range []int{0, 1, 2, 3, 4} {
 		if l <= c.Host {
 			c.Levels = append(c.Levels, l)
 		}
